@@ -338,7 +338,9 @@ def _run_requests(ctx: Ctx, cases, segs, servers, conns: Conns, obs: list) -> No
         shm_case = case["seg"] != "none" or case["ptr"] != "none"
         nfaults = cj["faults"]
         # number of concrete variants per class: most for the classes next to an ordinary request
-        if nfaults >= 3 or (quick and nfaults == 2):
+        if nfaults >= 3 and shm_case:       # (fresh connection per execution: the expensive ones)
+            plan = [("Ve", "unix" if ci % 3 == 0 else "pipe", ci % 12)]
+        elif nfaults >= 3 or (quick and nfaults == 2):
             plan = [("Ve", "pipe", 0), ("Ve", "unix" if ci % 2 else "pipe", 1)]
         else:
             plan = [("Ve", "pipe", 0), ("Ve", "pipe", 1), ("Ve", "unix", 2), ("Ve", "pipe", 3)]
